@@ -82,7 +82,56 @@ def run(ctx):
             ctx.violation("c06:server-crash:%s:gated" % crs["func"], "server panicked in gated session %s: %s" % (crs["case"], crs["panic"]),
                           {"engine": "TestRandom", "constants": {k: (sorted(v) if isinstance(v, (set, frozenset)) else v) for k, v in cr.items()},
                            "config": srvfam.harness_cfg(cr), "behaviour": srvfam.case_replay(bp, crs["case"])})
-    cov = {"states": states, "transitions": trans, "traces_validated_against_impl": cases, "samples": samples[:4] or [{"note": "no sample"}],
+    # 5. directory reads at arbitrary offsets (UfsData part B): TLC checks that the transcribed window of Ufs.Read keeps
+    #    its slice expressions in bounds for EVERY offset and count (WindowSafe); a tour of the graph with the off-rule
+    #    read DReadAt(off, count) is executed on real directories; the trace tells TLC what the transcription answers
+    from checks import c15
+    dc = c15.consts(DirImpl=True, DirMutate=False, **(dict(MaxEntries=3, MaxCount=10) if q else {}))
+    ctx.write_cfg("c06_dir_window.cfg", dc, invariants=["WindowSafe", "WindowRefines"], spec="DirSpec")
+    rw = ctx.tlc_must_pass("UfsData", "c06_dir_window.cfg", timeout=600, heap="4g", name="dir:window-safe")
+    states += rw.distinct
+    trans += rw.generated
+    ctx.write_cfg("c06_dir_tour.cfg", dc, invariants=["WindowSafe"], spec="DirAnyTourSpec", view="DView")
+    rg, dot = ctx.tlc_dump_graph("UfsData", "c06_dir_tour.cfg", timeout=600)
+    dirstats = {}
+    if not rg.ok or not os.path.exists(dot):
+        ctx.inconclusive.append("no off-rule directory tour graph")
+    else:
+        states += rg.distinct
+        trans += rg.generated
+        init, adj = tour.load(dot)
+        os.remove(dot)
+        paths, dcov, dtotal = tour.cover(init, adj, seed=ctx.seed + 5, sample_edges=5000 if q else 60000)
+        tpath = ctx.path("c06_dir_tour.ndjson")
+        tour.write_behaviours(paths, tpath)
+        t1 = ctx.path("c06_dir_trace.ndjson")
+        nv = len(ctx.violations)
+        drep = c15.engine(ctx, "c06", "TestC15Tour", env={"VERIF_TOUR": tpath, "VERIF_UNIT": c15.UNIT, "VERIF_TRACE_OUT": t1}, timeout=900)
+        # listing-rule deviations seen on the way are C15's business
+        ctx.violations = ctx.violations[:nv] + [v for v in ctx.violations[nv:] if v["key"].startswith("c06:")]
+        crashes_total += sum(1 for v in ctx.violations[nv:] if ":panic:" in v["key"])
+        drift = 0
+        lines = 0
+        if "cases" in drep:
+            ctx.write_cfg("c06_dir_trace.cfg", c15.consts(DirImpl=False), spec="DirTraceSpec")
+            rt = ctx.tlc("UfsDataTrace", "c06_dir_trace.cfg", workers=1, timeout=800, name="trace:dir-offrule", env={"IN_FILE": t1}, heap="4g")
+            import re as _re
+            m = _re.search(r'<<"CONSUMED", (\d+)>>', rt.out)
+            if not rt.ok or not m:
+                ctx.inconclusive.append("off-rule directory trace not consumed by TLC (%s)" % (rt.violated or rt.error))
+            else:
+                lines = int(m.group(1))
+                rej = _re.findall(r'<<"REJECT", (\d+), (\d+), "(\w+)">>', rt.out)
+                drift = len(rej)
+                for a, b, act in rej[:5]:
+                    ctx.log("NOTE off-rule directory read: trace line %s (%s) is not what the transcribed window answers (model drift, no verdict)" % (b, act))
+            cases += drep.get("cases", 0)
+        ds = drep.get("stats", {})
+        dirstats = {"tour_edges_covered": dcov, "tour_edges_total": dtotal, "tour_paths": len(paths), "offrule_treads": ds.get("offrule_treads", 0),
+                    "treads": ds.get("treads", 0), "directories": ds.get("directories", 0), "trace_lines_validated": lines, "trace_drift": drift}
+        if "cases" in drep and not ds.get("offrule_treads"):
+            ctx.inconclusive.append("the directory tour executed no off-rule read")
+    cov = {"states": states, "transitions": trans, "traces_validated_against_impl": cases, "directory_offsets": dirstats, "samples": samples[:4] or [{"note": "no sample"}],
            "evaluations": cases, "distinct_nontrivial": cases,
            "rule": "reference-machine histories (tour) + one case per Wire9P mutation vector sent as a frame + seeded adversarial / mutated / "
                    "random-byte sessions; every case ends with a liveness probe on a fresh connection and on a bystander connection",
